@@ -52,7 +52,8 @@ ANY = HASHABLE + ["list", "tuple", "dict", "bytearray", "class", "call", "ref", 
 
 class ProgGen:
     def __init__(self, rng, max_depth=4, allow_ref=True, allow_call=True, max_proto=5,
-                 adversarial_text=True):
+                 adversarial_text=True, allow_memoize=True):
+        self.allow_memoize = allow_memoize
         self.r = rng
         self.max_depth = max_depth
         self.memo_keys = []          # encoded GET forms available
@@ -200,7 +201,7 @@ class ProgGen:
         r = self.r
         if r.below(3) != 0:
             return b""
-        f = r.below(4)
+        f = r.below(4 if self.allow_memoize else 3)
         if f == 3:
             key = self.memo_count      # MEMOIZE: key = number of memo entries
             out = self.op("MEMOIZE", b"\x94")
@@ -371,3 +372,36 @@ def random_opcode_soup(rng, n):
         elif k == 8: out += rng.choice([b"I1\n", b"I01\n", b"L5L\n", b"F1.5\n", b"S'a'\n", b"Vb\n", b"p1\n", b"g1\n", b"cm\nn\n", b"Px\n"])
         else: out.append(rng.below(256))
     return bytes(out)
+
+# ---- exhaustive small-state sweep: every opcode on every small typed stack ---------------------
+STACK_ITEMS = [
+    b"K\x01", b"\x88", b"N", b"G\x3f\xf0\x00\x00\x00\x00\x00\x00", b"\x8a\x01\x05",
+    b"X\x01\x00\x00\x00a", b"U\x01a", b"C\x01a", b"\x96\x01\x00\x00\x00\x00\x00\x00\x00a",
+    b"]", b"]K\x01a", b")", b"K\x01\x85", b"K\x01K\x02\x86", b"C\x01a\x85",
+    b"X\x01\x00\x00\x00xX\x06\x00\x00\x00latin1\x86", b"X\x01\x00\x00\x00xX\x07\x00\x00\x00latin-1\x86",
+    b"U\x01xU\x06latin1\x86", b"X\x02\x00\x00\x00\xc4\x80X\x06\x00\x00\x00latin1\x86",
+    b"}", b"}K\x01K\x02s", b"cm\nC\n", b"c_codecs\nencode\n", b"c__builtin__\nbytearray\n", b"cbuiltins\nbytearray\n",
+    b"(", b"K\x01Q", b"cm\nC\n)R",
+]
+SMALL_ITEMS = [b"K\x01", b"X\x01\x00\x00\x00a", b"]", b")", b"}", b"cm\nC\n", b"(", b"N", b"K\x01\x85", b"U\x01a"]
+SWEEP_OPS = [b"0", b"1", b"2", b"(", b"a", b"e", b"s", b"u", b"d", b"l", b"t", b"\x85", b"\x86", b"\x87", b")", b"]", b"}",
+             b"R", b"Q", b"Px\n", b"\x93", b"b", b"o", b"i", b"\x81", b"\x92", b"\x94", b"p1\n", b"q\x01", b"r\x01\x00\x00\x00",
+             b"g1\n", b"h\x01", b"j\x01\x00\x00\x00", b"q\x01h\x01", b"\x94h\x00", b"K\x07", b"N", b"\x97", b"\x98", b"\x8f", b"\x90",
+             b"\x91", b"\x80\x03", b"\x80\x02", b"\x95\x00\x00\x00\x00\x00\x00\x00\x00", b"."]
+
+def stack_sweep(proto_prefixes=(b"", b"\x80\x03")):
+    """stack (0..2 items of every kind, 3 items of a reduced set) x every opcode, then STOP"""
+    stacks = [b""]
+    stacks += list(STACK_ITEMS)
+    stacks += [a + b for a in STACK_ITEMS for b in STACK_ITEMS]
+    stacks += [a + b + c for a in SMALL_ITEMS for b in SMALL_ITEMS for c in SMALL_ITEMS]
+    out = []
+    for st in stacks:
+        for op in SWEEP_OPS:
+            out.append(st + op + b".")
+    # the protocol-dependent callables once more under PROTO 3
+    for st in stacks[:1 + len(STACK_ITEMS) + len(STACK_ITEMS) ** 2]:
+        if b"bytearray" in st or b"encode" in st:
+            for op in (b"R", b"\x85R", b"\x86R"):
+                out.append(b"\x80\x03" + st + op + b".")
+    return out
